@@ -40,7 +40,6 @@
 package main
 
 import (
-	"fmt"
 	"math/rand"
 	"runtime"
 	"time"
@@ -50,7 +49,6 @@ import (
 
 	"github.com/projectcalico/calico/libcalico-go/lib/ipam"
 
-	"verif/internal/casstore"
 	"verif/internal/dsched"
 	"verif/internal/harness"
 	"verif/internal/ipamkit"
@@ -87,7 +85,7 @@ func genCase(r *rand.Rand, thorough bool) *ipamkit.ConcCase {
 	}
 	cc.NOps = 2 + r.Intn(2)
 	if thorough {
-		cc.NOps = 3 + r.Intn(3)
+		cc.NOps = 3 + r.Intn(2)
 	}
 	cc.Phases = 1
 	if r.Intn(3) == 0 {
@@ -101,137 +99,14 @@ func genCase(r *rand.Rand, thorough bool) *ipamkit.ConcCase {
 	return cc
 }
 
-func report(c *harness.Case, cc *ipamkit.ConcCase, o *ipamkit.RunOutcome, what string) bool {
-	if o.SetupErr != nil {
-		c.Inconclusive("setup: " + o.SetupErr.Error())
-		return false
-	}
-	c.Count("runs", 1)
-	c.Count("runs_"+o.Plan.Mode.String(), 1)
-	for _, p := range o.Phases {
-		c.Count("ds_ops", int64(p.DSOps))
-		c.Count("write_attempts", int64(p.WriteAttempts))
-		c.Count("conflicts_seen", int64(p.Conflicts))
-		c.Count("conflicts_real", int64(p.RealConflicts))
-		for k, n := range p.Faults {
-			c.Count("fault_"+k, int64(n))
-		}
-		c.Count("sched_overlaps", p.Overlaps)
-		c.Count("sched_steps", int64(len(p.Decisions)))
-		if o.Plan.Mode != dsched.Free {
-			c.Distinct("schedules", fmt.Sprint(p.Decisions))
-		}
-	}
-	if o.Tracker != nil {
-		c.Count("committed_writes", o.Tracker.NWrites)
-		c.Count("block_writes", o.Tracker.NBlockWrites)
-		c.Count("allocations_committed", o.Tracker.NAllocs)
-		c.Count("frees_committed", o.Tracker.NFrees)
-		c.Count("online_checks", o.Tracker.NChecks)
-	}
-	c.Count("logical_ops", int64(len(o.World.Ops())))
-	c.Count("logical_ops_ok", int64(o.OKOps))
-	for k, n := range o.ErrOps {
-		c.Count("logical_ops_err_"+k, int64(n))
-	}
-	c.Count("porcupine_partitions", int64(o.Lin.Checked))
-	c.Count("porcupine_unknown", int64(o.Lin.Unknown))
-	c.Count("handles_compared", int64(o.HandlesCmp))
-	if o.Inconclusive != "" {
-		c.Count("inconclusive_runs", 1)
-		if !c.Failed() {
-			c.Inconclusive(o.Inconclusive)
-		}
-		return false
-	}
-	if len(o.Violations) == 0 {
-		return true
-	}
-	// One report per key and case; keep exploring (a listed finding must not hide the rest).
-	var wit map[string]any
-	for _, v := range o.Violations {
-		if reported[c][v.Key] {
-			continue
-		}
-		if reported[c] == nil {
-			reported = map[*harness.Case]map[string]bool{c: {}}
-		}
-		reported[c][v.Key] = true
-		if wit == nil {
-			wit = o.Witness(cc)
-			wit["run"] = what
-		}
-		c.Violationf(v.Key, wit, "%s [%s]", v.Msg, what)
-	}
-	return len(reported[c]) < 4
-}
-
-// reported: violation keys already reported for the case in progress (one case at a time per process).
-var reported = map[*harness.Case]map[string]bool{}
-
 func run(c *harness.Case) {
-	thorough := c.Thorough()
-	cc := genCase(c.R, thorough)
-	seed := c.R.Int63()
-	mode := dsched.Uniform
-	depth := 0
+	cc := genCase(c.R, c.Thorough())
+	d := &ipamkit.Driver{C: c, CC: cc, Seed: c.R.Int63(), Mode: dsched.Uniform, RandomRuns: c.Pick(2, 4), FreeRunning: c.Index%8 == 7, FreeRuns: 3}
 	if c.R.Intn(2) == 0 {
-		mode, depth = dsched.PCT, 2+c.R.Intn(3)
+		d.Mode, d.Depth = dsched.PCT, 2+c.R.Intn(3)
 	}
-	c.Sample(map[string]any{"clients": cc.ClientHosts, "config": cc.Spec.Config, "nops": cc.NOps, "phases": cc.Phases, "mode": mode.String(), "pool4": cc.Spec.Pools[0].CIDR})
-
-	if c.Index%8 == 7 {
-		// Free-running sub-run: real concurrency for the race detector.
-		n := 3
-		for i := 0; i < n; i++ {
-			plan := ipamkit.RunPlan{Seed: seed + int64(i), Mode: dsched.Free,
-				Fault: ipamkit.FaultPlan{PSpurious: 0.05, PAbort: 0.01, PLost: 0.01, PCrash: 0.005, MaxRandom: 2}}
-			o := cc.Run(plan)
-			if !report(c, cc, o, fmt.Sprintf("free-running #%d", i)) {
-				return
-			}
-			c.Count("free_runs", 1)
-		}
-		c.NonTrivial("free", seed)
-		return
-	}
-
-	// 1. fault-free base run.
-	base := cc.Run(ipamkit.RunPlan{Seed: seed, Mode: mode, Depth: depth})
-	if !report(c, cc, base, "fault-free base run") {
-		return
-	}
-	conf := 0
-	for _, p := range base.Phases {
-		conf += p.RealConflicts
-	}
-	if conf > 0 || len(cc.ClientHosts) >= 2 {
-		c.NonTrivial(fmt.Sprint(base.Phases[0].Decisions), seed)
-	}
-	// 2. the same run with one fault at every write attempt.
-	for ph, p := range base.Phases {
-		for k := 1; k <= p.WriteAttempts; k++ {
-			for _, f := range ipamkit.FaultKindsFor(p.WriteKinds[k-1]) {
-				plan := ipamkit.RunPlan{Seed: seed, Mode: mode, Depth: depth, FaultPhase: ph, Fault: ipamkit.FaultPlan{AtWrite: k, Kind: f}}
-				o := cc.Run(plan)
-				c.Count("enumerated_fault_runs", 1)
-				if !report(c, cc, o, fmt.Sprintf("%s at write %d of phase %d", f, k, ph)) {
-					return
-				}
-			}
-		}
-	}
-	// 3. random multi-fault runs on fresh schedules.
-	nr := c.Pick(2, 4)
-	for i := 0; i < nr; i++ {
-		plan := ipamkit.RunPlan{Seed: seed + 1000 + int64(i), Mode: mode, Depth: depth, FaultPhase: 0,
-			Fault: ipamkit.FaultPlan{PSpurious: 0.10, PAbort: 0.02, PLost: 0.02, PCrash: 0.01, PReadAbort: 0.005, MaxRandom: 3}}
-		o := cc.Run(plan)
-		c.Count("random_fault_runs", 1)
-		if !report(c, cc, o, fmt.Sprintf("random faults #%d", i)) {
-			return
-		}
-	}
+	c.Sample(map[string]any{"clients": cc.ClientHosts, "config": cc.Spec.Config, "nops": cc.NOps, "phases": cc.Phases, "mode": d.Mode.String(), "pool4": cc.Spec.Pools[0].CIDR})
+	d.Run()
 }
 
 func main() {
@@ -249,7 +124,7 @@ func main() {
 		},
 		Cases: func(tier string) int {
 			if tier == "thorough" {
-				return 2400
+				return 1000
 			}
 			return 48
 		},
@@ -261,11 +136,10 @@ func main() {
 		Run:         run,
 		CaseTimeout: 600 * time.Second,
 		Floors: map[string]int64{
-			"runs": 500, "logical_ops": 2000, "committed_writes": 5000, "conflicts_seen": 200, "conflicts_real": 20,
-			"fault_abort-before": 100, "fault_lost-reply": 100, "fault_spurious-conflict": 50, "fault_crash-after": 100,
-			"allocations_committed": 1000, "porcupine_partitions": 1000, "handles_compared": 500, "free_runs": 5,
+			"runs": 400, "logical_ops": 5000, "committed_writes": 15000, "conflicts_seen": 1000, "conflicts_real": 500,
+			"fault_abort-before": 100, "fault_lost-reply": 100, "fault_spurious-conflict": 80, "fault_crash-after": 100,
+			"allocations_committed": 3000, "frees_committed": 500, "porcupine_partitions": 5000, "handles_compared": 1000,
+			"online_checks": 10000, "free_runs": 5,
 		},
 	})
 }
-
-var _ = casstore.FaultNone
